@@ -260,20 +260,22 @@ def emptyOkGo (m : Method) : Option Name → List Ev → Bool
   | none, .end_ _ :: rest => emptyOkGo m none rest
   | none, .text _ _ :: rest => emptyOkGo m none rest
 
-/-- with `strip_whitespace` every run of character data is normalised as the option documents -/
-def flushDataS (pend : List Char) : List Ev := flushData (normWs pend)
+/-- with `strip_whitespace` every run of character data is normalised as the option documents,
+    except inside a whitespace-preserving element (`pre`, `textarea` under xhtml / html);
+    `p` counts the open elements from the outermost preserving one inwards -/
+def flushDataP (p : Nat) (pend : List Char) : List Ev :=
+  flushData (if p = 0 then normWs pend else pend)
 
-def coalesceStripGo : List Char → List Ev → List Ev
-  | pend, [] => flushDataS pend
-  | pend, .text s f :: rest => coalesceStripGo (pend ++ textValue s f) rest
-  | pend, .start t a :: rest => flushDataS pend ++ .start t a :: coalesceStripGo [] rest
-  | pend, .end_ t :: rest => flushDataS pend ++ .end_ t :: coalesceStripGo [] rest
+def presStep (pres : List Name) (p : Nat) (t : Name) : Nat :=
+  if p > 0 || pres.contains t then p + 1 else p
 
-def coalesceStrip (evs : List Ev) : List Ev := coalesceStripGo [] evs
+def coalesceStripGo (pres : List Name) : Nat → List Char → List Ev → List Ev
+  | p, pend, [] => flushDataP p pend
+  | p, pend, .text s f :: rest => coalesceStripGo pres p (pend ++ textValue s f) rest
+  | p, pend, .start t a :: rest =>
+      flushDataP p pend ++ .start t a :: coalesceStripGo pres (presStep pres p t) [] rest
+  | p, pend, .end_ t :: rest => flushDataP p pend ++ .end_ t :: coalesceStripGo pres (p - 1) [] rest
 
-/-- no element in which white space is preserved (`pre`, `textarea` under xhtml / html) -/
-def noPreserveB (m : Method) : Ev → Bool
-  | .start t _ => !(preserveElems m).contains t
-  | _ => true
+def coalesceStrip (m : Method) (evs : List Ev) : List Ev := coalesceStripGo (preserveElems m) 0 [] evs
 
 end Genshi.Subst
